@@ -7,8 +7,9 @@
    What is proved is the collection half of the property (every instance reachable at run time exists, exactly
    once, with an id of its own, whatever order the packages are visited in).  "Behaves correctly" - the per-instance
    translation of bodies - is not modelled here; it is covered differentially by the compiled-program comparison. *)
-From Coq Require Import List NArith Bool Arith.
+From Coq Require Import List NArith Bool Arith String.
 From Verif Require Import Model.C04_Inst Proofs.C04_Inst.
+From Verif Require Import Model.C04_P4_Map Model.C04_P4_Name Proofs.C04_P4_Map Proofs.C04_P4_Name Proofs.C04_P4_Subst.
 Import ListNotations.
 
 (* Whenever Finish returns (all sets exhausted), for EVERY sequence of package visits and every fuel, the collected
@@ -78,7 +79,7 @@ Qed.
 Print Assumptions C04_id_total.
 
 Theorem C04_id_position : forall p fuel sched k n i,
-  k < length (collect p fuel sched) ->
+  k < List.length (collect p fuel sched) ->
   nth_error (vals_k (collect p fuel sched) k) n = Some i -> inst_id p (collect p fuel sched) i = Some n.
 Proof. intros. eapply id_position_lem; eauto. apply collect_placed. Qed.
 Print Assumptions C04_id_position.
@@ -117,7 +118,145 @@ Example C04_nonvacuous :
   all_exhausted (collect prog_ids 10 [0; 1; 2]) = true /\
   In inst_ids (all_vals (collect prog_ids 10 [0; 1; 2])) /\
   In inst_ids (all_vals (collect prog_ids 10 [1; 0; 2])) /\
-  length (all_vals (collect prog_ids 10 [0; 1; 2])) = 4.
+  List.length (all_vals (collect prog_ids 10 [0; 1; 2])) = 4.
 Proof.
   split; [exact prog_ids_wf|]. vm_compute. repeat split; auto.
+Qed.
+
+(* ====================================================================== phase 4 ==================================== *)
+
+(* ---- (1) names.  The JS reference the compiler prints for an instance is objectName(o)[id]  (compiler/utils.go
+   instName; Model/C04_P4_Name.js_ref = (package, variable, id); trivial instances have no id).  Two instances with the
+   same reference are the same object with identical type arguments and identical nesting arguments - whatever the
+   type arguments are (nested instances, local types' nesting arguments) and in whatever package: the package is part
+   of the reference.  vars_distinct = newVariable gives distinct objects of a package distinct variables (checked on
+   every compiled program by the correspondence). *)
+Theorem C04_js_ref_generic_injective : forall p st nm i j pk v n,
+  js_ref p st nm i = Some (pk, v, Some n) -> js_ref p st nm j = Some (pk, v, Some n) -> i = j.
+Proof. exact js_ref_generic_injective_lem. Qed.
+Print Assumptions C04_js_ref_generic_injective.
+
+(* ... and with the trivial instances of non-generic objects (reference = the variable alone, no id): *)
+Theorem C04_js_ref_injective : forall p st nm i j r,
+  vars_distinct p nm -> is_obj p (i_obj i) -> is_obj p (i_obj j) ->
+  js_ref p st nm i = Some r -> js_ref p st nm j = Some r -> i = j.
+Proof. exact js_ref_injective_lem. Qed.
+Print Assumptions C04_js_ref_injective.
+
+(* identical instances always get the same reference, the same printed name and the same strings *)
+Theorem C04_js_ref_same : forall p st nm i j,
+  inst_eqb i j = true ->
+  js_ref p st nm i = js_ref p st nm j /\ js_name p st nm i = js_name p st nm j /\
+  type_string nm i = type_string nm j /\ inst_string nm i = inst_string nm j.
+Proof. exact js_ref_same_lem. Qed.
+Print Assumptions C04_js_ref_same.
+
+(* every collected instance has a reference (instName cannot panic on it), and its id is its discovery position *)
+Theorem C04_js_ref_total : forall p fuel sched nm i,
+  In i (all_vals (collect p fuel sched)) -> exists r, js_ref p (collect p fuel sched) nm i = Some r.
+Proof. exact js_ref_total_lem. Qed.
+Print Assumptions C04_js_ref_total.
+
+Theorem C04_js_ref_position : forall p fuel sched nm k n i,
+  k < List.length (collect p fuel sched) -> is_trivial i = false ->
+  nth_error (vals_k (collect p fuel sched) k) n = Some i ->
+  js_ref p (collect p fuel sched) nm i = Some (o_pkg (get_obj p (i_obj i)), assoc (n_var nm) (i_obj i), Some n).
+Proof. exact js_ref_position_lem. Qed.
+Print Assumptions C04_js_ref_position.
+
+(* Full statement for the STRINGS (Instance.TypeString = the string given to $newType, Instance.String = Decl.FullName):
+   refuted.  go/types prints two types declared in different scopes of one function with the same text, so G[T] and
+   G[T'] (func f() { type T int; { type T string } }) are different instances with the same type string; their JS
+   references differ (G[0], G[1]).  Replayed on the real compiler on every run (coverage key p4_shadow_witness). *)
+Definition C04_type_string_injective_full_statement : Prop :=
+  forall nm i j, type_string nm i = type_string nm j -> i = j.
+
+Theorem C04_type_string_injective_refuted : exists nm i j,
+  i <> j /\ type_string nm i = type_string nm j /\ inst_string nm i = inst_string nm j.
+Proof.
+  exists nm_shadow, inst_shadow_a, inst_shadow_b.
+  destruct type_string_not_injective_lem as [A [B [C _]]]. exact (conj A (conj B C)).
+Qed.
+Print Assumptions C04_type_string_injective_refuted.
+
+(* what holds for the strings: with a table that spells closed types and objects injectively (no shadowing), the
+   components the strings are built from determine the instance *)
+Theorem C04_name_parts_injective_partial : forall nm i j,
+  (forall a b, ty_str nm a = ty_str nm b -> a = b) ->
+  (forall o1 o2, assoc (n_sym nm) o1 = assoc (n_sym nm) o2 -> o1 = o2) ->
+  assoc (n_sym nm) (i_obj i) = assoc (n_sym nm) (i_obj j) ->
+  map (ty_str nm) (i_targs i) = map (ty_str nm) (i_targs j) ->
+  map (ty_str nm) (i_tnest i) = map (ty_str nm) (i_tnest j) -> i = j.
+Proof. exact name_parts_injective_lem. Qed.
+Print Assumptions C04_name_parts_injective_partial.
+
+(* ---- (2) substitution through the Resolver *)
+Theorem C04_subst_commutes : forall own nest,
+  (forall c l, subst own nest (TCon c l) = TCon c (map (subst own nest) l)) /\
+  (forall o l, subst own nest (TNamed o l) = TNamed o (map (subst own nest) l)) /\
+  (forall b, subst own nest (TBase b) = TBase b).
+Proof. exact subst_commutes_lem. Qed.
+Print Assumptions C04_subst_commutes.
+
+(* ground arguments, a type over the instance's own and nesting parameters: no type parameter is left *)
+Theorem C04_subst_ground : forall own nest t,
+  forallb closed own = true -> forallb closed nest = true ->
+  scoped (List.length own) (List.length nest) t = true -> closed (subst own nest t) = true.
+Proof. exact subst_ground_lem. Qed.
+Print Assumptions C04_subst_ground.
+
+(* the nested-instance case: resolving the parameters of an inner instance G[es] seen from an outer ground instance *)
+Theorem C04_subst_nested_instance : forall own nest es t,
+  forallb closed own = true -> forallb closed nest = true -> scoped (List.length es) 0 t = true ->
+  subst own nest (subst es [] t) = subst (map (subst own nest) es) [] t.
+Proof. exact subst_nested_instance_lem. Qed.
+Print Assumptions C04_subst_nested_instance.
+
+(* every instance produced from a ground context is ground in its type arguments AND its nesting arguments (TNest) *)
+Theorem C04_produced_ground : forall p c it i, ground_ctx c -> produced p c it = Some i -> ground_inst i.
+Proof. exact produced_ground_lem. Qed.
+Print Assumptions C04_produced_ground.
+
+(* so every instance Finish hands to the translation is ground and its substituted signature / underlying type
+   (any type over its parameters) mentions no type parameter *)
+Theorem C04_collected_signature_ground : forall p, wf_prog p -> forall fuel sched,
+  all_exhausted (collect p fuel sched) = true ->
+  forall i, In i (all_vals (collect p fuel sched)) ->
+  ground_inst i /\
+  forall t, scoped (List.length (i_targs i)) (List.length (i_tnest i)) t = true ->
+            closed (subst (i_targs i) (i_tnest i) t) = true.
+Proof.
+  intros p W fuel sched E i H. split;
+    [exact (collected_ground_lem p W fuel sched E i H) | exact (collected_signature_ground_lem p W fuel sched E i H)].
+Qed.
+Print Assumptions C04_collected_signature_ground.
+
+(* ---- (3) InstanceMap (map.go): for EVERY hash function - including one under which all keys collide - and every
+   history of Set/Get/Has/Delete/Len, the bucket structure with nil holes answers exactly like a finite map keyed by
+   instance identity (object, identical TNest, identical TArgs); Keys() is the key set of that finite map. *)
+Theorem C04_instance_map_refines : forall (V : Type) (h : ty -> N) (ops : list (op V)),
+  snd (map_run V h empty_map ops) = snd (spec_run V [] ops).
+Proof. exact map_refines_lem. Qed.
+Print Assumptions C04_instance_map_refines.
+
+Theorem C04_instance_map_keys : forall (V : Type) (h : ty -> N) (ops : list (op V)) (k : inst),
+  In k (map_keys V (fst (map_run V h empty_map ops))) <-> spec_get V (fst (spec_run V [] ops)) k <> None.
+Proof. exact map_keys_lem. Qed.
+Print Assumptions C04_instance_map_keys.
+
+(* Non-vacuity of phase 4: a history in which all keys collide (hash_const), a deleted entry leaves a hole that the
+   next new key reuses, and an overwritten key keeps its length; groundness hypotheses are satisfiable. *)
+Example C04_p4_nonvacuous :
+  let a := mkInst 0 [TBase 0; TBase 1] [] in
+  let b := mkInst 0 [TBase 1; TBase 0] [] in
+  let c := mkInst 0 [TBase 1] [TBase 0] in
+  List.map (fun o => match o with RVal v => v | RBool true => Some 1%N | RBool false => Some 0%N | RLen n => Some (N.of_nat n) end)
+    (snd (map_run N hash_const empty_map
+            [OSet a 5%N; OSet b 6%N; OSet c 7%N; ODelete b; OLen; OSet b 8%N; OSet a 9%N; OGet a; OGet b; OGet c; OLen]))
+  = [None; None; None; Some 1; Some 2; None; Some 5; Some 9; Some 8; Some 7; Some 3]%N
+  /\ closed (subst [TCon 0 [TBase 0]] [TBase 1] (TCon 7 [TNestV 0; TNamed 3 [TOwn 0]])) = true
+  /\ vars_distinct prog_shadow nm_shadow.
+Proof.
+  split; [vm_compute; reflexivity|]. split; [vm_compute; reflexivity|].
+  exact shadow_vars_distinct.
 Qed.
